@@ -52,6 +52,16 @@ fn dval(v: &str) -> Bytes {
     Bytes::from(v.as_bytes()[..1].repeat(n))
 }
 const DKEYS: [&str; 2] = ["k", "x.y"];
+const DYN_OBJS: [&str; 3] = ["A", "B", "C"];
+
+fn dyn_obj(v: &str) -> Vec<u8> {
+    let n = match v {
+        "A" => 1000,
+        "B" => 100,
+        _ => 5000,
+    };
+    (0..n).map(|i| (i as u8).wrapping_mul(13).wrapping_add(v.as_bytes()[0])).collect()
+}
 
 // ------------------------------------------------------------------ driver side
 
@@ -93,6 +103,18 @@ fn exec_ops(routine: &str, root: &Path, ops: &[&str], state: &mut DriverState) -
                 let c = state.disk.as_ref().unwrap();
                 block_on(c.put(SKey(p[1].to_string()), dval(p[2]))).map_err(|e| e.to_string())?;
             }
+            ("dyn", "w") => {
+                use cascette_client_storage::container::Container;
+                let data = dyn_obj(p[1]);
+                let key = crate::props::c04::ekey_n(&data);
+                block_on(state.dynamic.as_ref().unwrap().write(&key, &data)).map_err(|e| e.to_string())?;
+            }
+            ("dyn", "rm") => {
+                use cascette_client_storage::container::Container;
+                let data = dyn_obj(p[1]);
+                let key = crate::props::c04::ekey_n(&data);
+                block_on(state.dynamic.as_ref().unwrap().remove(&key)).map_err(|e| e.to_string())?;
+            }
             ("disk", "rm") => {
                 let c = state.disk.as_ref().unwrap();
                 block_on(c.remove(&SKey(p[1].to_string()))).map_err(|e| e.to_string())?;
@@ -110,6 +132,7 @@ struct DriverState {
     res: Option<ResidencyDb>,
     lru: Option<LruManager>,
     disk: Option<DiskCache<SKey>>,
+    dynamic: Option<cascette_client_storage::container::DynamicContainer>,
 }
 
 fn copy_dir(from: &Path, to: &Path) {
@@ -128,6 +151,11 @@ pub fn driver_main(args: &[String]) -> i32 {
         "index" => st.index = Some(IndexManager::new(root)),
         "residency" => st.res = Some(ResidencyDb::new(root.join("residency.db"))),
         "lru" => st.lru = Some(LruManager::new(3, root.to_path_buf())),
+        "dyn" => {
+            let c = cascette_client_storage::container::DynamicContainer::builder(root.to_path_buf()).build().expect("container");
+            block_on(c.open()).expect("open container");
+            st.dynamic = Some(c);
+        }
         "disk" => {
             st.disk = Some(
                 DiskCache::new(DiskCacheConfig::new(root.to_path_buf()).with_default_ttl(Duration::from_secs(3600)).with_subdirectories(false, 1))
@@ -200,6 +228,25 @@ pub fn observe(routine: &str, dir: &Path) -> Result<BTreeMap<String, String>, St
                     assert!(order.len() <= 64, "for_each_entry does not terminate: the list has a cycle");
                 });
                 out.insert("lru".into(), format!("{order:?}"));
+            }
+            "dyn" => {
+                use cascette_client_storage::container::Container;
+                let c = cascette_client_storage::container::DynamicContainer::builder(dir.to_path_buf()).build().map_err(|e| format!("build: {e}"))?;
+                block_on(c.open()).map_err(|e| format!("open: {e}"))?;
+                for v in DYN_OBJS {
+                    let data = dyn_obj(v);
+                    let key = crate::props::c04::ekey_n(&data);
+                    let q = block_on(c.query(&key)).map_err(|e| format!("query({v}): {e}"))?;
+                    let mut buf = vec![0u8; data.len() + 16];
+                    let r = match block_on(c.read(&key, 0, data.len() as u32, &mut buf)) {
+                        Ok(n) if buf[..n] == data[..] => "bytes-ok".to_string(),
+                        Ok(n) => format!("WRONG-BYTES({n})"),
+                        Err(cascette_client_storage::StorageError::NotFound(_)) => "absent".to_string(),
+                        // an indexed object that cannot be read back is a broken state, not old or new
+                        Err(e) => format!("UNREADABLE({e})"),
+                    };
+                    out.insert(format!("object-{v}"), format!("query={q} read={r}"));
+                }
             }
             "disk" => {
                 let c: DiskCache<SKey> = DiskCache::new(DiskCacheConfig::new(dir.to_path_buf()).with_default_ttl(Duration::from_secs(3600)).with_subdirectories(false, 1))
@@ -280,6 +327,20 @@ fn scenarios(tier: Tier) -> Vec<Scenario> {
     for p in &lpre {
         for s in &lsave {
             v.push(mk("lru", p, s));
+        }
+    }
+    // dynamic container: write appends to the archive and saves the index; remove saves the index
+    let ypre: Vec<&str> = match tier {
+        Tier::Quick => vec!["", "w:A"],
+        Tier::Thorough => vec!["", "w:A", "w:A;w:B", "w:A;rm:A"],
+    };
+    let ysave: Vec<&str> = match tier {
+        Tier::Quick => vec!["w:B", "rm:A"],
+        Tier::Thorough => vec!["w:B", "rm:A", "w:C", "w:A", "w:B;rm:B"],
+    };
+    for p in &ypre {
+        for s in &ysave {
+            v.push(mk("dyn", p, s));
         }
     }
     // disk cache
@@ -480,6 +541,7 @@ pub fn replay(w: &serde_json::Value) -> i32 {
         "index" => "index",
         "residency" => "residency",
         "lru" => "lru",
+        "dyn" => "dyn",
         _ => "disk",
     };
     let rep = Report::new("C06", Tier::Quick, 0, Level::FaultEnumeration);
